@@ -194,7 +194,7 @@ def describe(cases, obs):
 
 
 CLAIM = {
-    'text': "Theorems (Coq): the timed run of every pipeline is causal (outputs during a prefix do not depend on the rest), one output list per event; synchronous composition preserves emission positions; the slot-level timed outputs equal the local machine's on every wf trace; closing actions emit the segment result in the same step (roll: w-th item); every C04-C10/C13 theorem is itself timed. Oracle on the code: families with known emission positions (per-item pipelines emit nothing at completion; roll/split/time_split/batch results in the step of the closing item; reduce/last/to_list only at completion), outputs stamped with the source event index.",
+    'text': "Theorems (Coq): the timed run of every pipeline is causal (outputs during a prefix do not depend on the rest), one output list per event; synchronous composition preserves emission positions; the slot-level timed outputs equal the local machine's on every wf trace; closing actions emit the segment result in the same step (roll: w-th item); every C04-C10/C13 theorem is itself timed; C11_nothing_held_back: a pipeline with no completion-triggered operator (no last, reduce, terminator, pad_end - at any nesting depth under group_by / roll / split / time_split / tee_map) emits nothing at the completion of a key, so at slot level the completion step carries the key completion alone (C11_completion_step_is_bare). Oracle on the code: families with known emission positions (per-item pipelines emit nothing at completion; roll/split/time_split/batch results in the step of the closing item; reduce/last/to_list only at completion), outputs stamped with the source event index.",
     'note': "Trusted: Coq kernel+VM; a Mealy-style model bakes in 'no scheduler hop': validated by the event-indexed comparison on every case.",
     'technique': 'Coq proof (forward-simulation refinement of a slot-level model by per-key local machines, list-level induction) + vm_compute correspondence against /repo + model-free oracle',
 }
